@@ -104,6 +104,50 @@ def handle (cmd : String) (args : List String) : Option String :=
       | none => "trap"
       | some ts => " | ".intercalate (ts.map (fun t =>
           showCoverage t.cov ++ " ; " ++ joinNats (t.pairSets.map (fun ps => (ps.head?.map (·.2)).getD 0)))))
+  | "ppf1.run", some [tbl, [covSize], ps] =>
+    -- whole of `split_pair_pos_format_1`: heuristic, then the split loop; pair set `i` carries its
+    -- object id as value so that the slices are observable
+    match parseCoverage? tbl, pairs ps with
+    | some c, some ps =>
+      match ppf1SplitPoints covSize ps with
+      | none => some "none"
+      | some pts =>
+        let t : PairPos1 Nat := ⟨c, ps.map (fun p => [(0, p.1)])⟩
+        match splitPpf1Go t 0 pts with
+        | none => some "trap"
+        | some ts => some (joinNats pts ++ " | " ++ " | ".intercalate (ts.map (fun t =>
+            showCoverage t.cov ++ " ; " ++ joinNats (t.pairSets.map (fun ps => (ps.head?.map (·.2)).getD 0)))))
+    | _, _ => none
+  | "ppf2.run", some [ctbl, cdtbl, [class1Count, recSize, cd2Size]] =>
+    -- whole of `split_pair_pos_format_2` (no device tables): heuristic, then `split_off_ppf2` for
+    -- every range; row `i` of the matrix carries `i` so that the row slices are observable
+    match parseCoverage? ctbl, parseClassDef? cdtbl with
+    | some c, some cd =>
+      let gc := c.glyphs.map (fun g => (g, cd.get g))
+      match ppf2SplitPoints gc class1Count recSize cd2Size with
+      | none => some "none"
+      | some pts =>
+        let t : PairPos2 Nat := ⟨c, cd, .fmt2 [], (List.range class1Count).map (fun i => [i])⟩
+        match splitPpf2Go t 0 pts with
+        | none => some "trap"
+        | some ts => some (joinNats pts ++ " | " ++ " | ".intercalate (ts.map (fun t =>
+            showCoverage t.cov ++ " ; " ++ showClassDef t.classDef1 ++ " ; " ++
+              joinNats (t.rows.map (fun r => r.headD 0)))))
+    | _, _ => none
+  | "mb.split", some (mctbl :: [classCount] :: pts :: marks :: rows) =>
+    -- `split_off_mark_pos` for every range of the given split points; mark record `i` = (class,
+    -- anchor id), base row = anchor ids per class with 0 = null
+    match parseCoverage? mctbl, pairs marks with
+    | some c, some marks =>
+      let t : MarkBase Nat := ⟨c, .fmt1 [], classCount, marks,
+        rows.map (fun r => r.map (fun a => if a = 0 then none else some a))⟩
+      match splitMarkBaseGo t 0 pts with
+      | none => some "trap"
+      | some ts => some (" | ".intercalate (ts.map (fun t =>
+          showCoverage t.markCov ++ " ; " ++ toString t.classCount ++ " ; " ++
+            joinNats (t.marks.flatMap (fun p => [p.1, p.2])) ++ " ; " ++
+            " , ".intercalate (t.bases.map (fun r => joinNats (r.map (fun a => a.getD 0)))))))
+    | _, _ => none
   | _, _ => none
 
 end FontVerif.Drv.C16
